@@ -97,8 +97,8 @@ fn run_live(rt: &tokio::runtime::Runtime, env: &Env, zone0: &Zone, fixed: Option
     let n = fixed.map(|f| f.len()).unwrap_or(len);
     for i in 0..n {
         let state = rec.snaps.last().unwrap().to_zone();
-        if state.rrset(&apex(), T_SOA).is_none() || state.serial() == Some(u32::MAX) {
-            break; // C12 findings (zone destroyed / serial overflow panic) are not C14's subject
+        if state.rrset(&apex(), T_SOA).is_none() {
+            break; // a zone without SOA (C12's subject) cannot be journalled meaningfully
         }
         let msg = match fixed {
             Some(f) => f[i].clone(),
@@ -108,7 +108,6 @@ fn run_live(rt: &tokio::runtime::Runtime, env: &Env, zone0: &Zone, fixed: Option
                 if r.chance(1, 2) {
                     m.pre.clear(); // more accepted, multi-row updates
                 }
-                no_apex_delete_name(&mut m);
                 m
             }
         };
@@ -464,7 +463,7 @@ fn check_history(w: &Work, rep: &mut Reporter, zone0: &Zone, fixed: Option<&[Upd
             let _ = s_rec;
             for i in 0..n_cont {
                 let z = live_state.to_zone();
-                if z.rrset(&apex(), T_SOA).is_none() || z.serial() == Some(u32::MAX) {
+                if z.rrset(&apex(), T_SOA).is_none() {
                     break;
                 }
                 let msg = match cont_fixed {
@@ -474,8 +473,7 @@ fn check_history(w: &Work, rep: &mut Reporter, zone0: &Zone, fixed: Option<&[Upd
                         if rng.chance(1, 2) {
                             m.pre.clear();
                         }
-                        no_apex_delete_name(&mut m);
-                        m
+                                m
                     }
                 };
                 cont.push(msg.clone());
@@ -603,13 +601,16 @@ fn main() {
 
 /// "delete all RRsets from the apex" destroys the zone (C12 finding, SOA and NS deleted too); the
 /// intermediate states it creates are not C14's subject, so C14 histories do not contain it
-fn no_apex_delete_name(m: &mut UpdMsg) {
-    m.upd.retain(|rr| !(rr.class == C_ANY && rr.rtype == T_ANY && fold(&rr.owner) == apex()));
-}
-
-/// C14 keeps away from C12's serial-overflow finding
+/// Serial of the generated zone: small most of the time; one zone in four starts just below the
+/// 2^32 wrap, just below 2^31, or high enough that an SOA update RR can move the serial forward in
+/// RFC 1982 sequence space while moving it down as an integer (journalled serials must survive that).
 fn fix_serial(z: &mut Zone, r: &mut Rng) {
-    let s = r.range(1, 100_000) as u32;
+    let s = match r.below(8) {
+        0 => 0xFFFF_FFFF - r.below(4) as u32,
+        1 => 0x7FFF_FFFF - r.below(4) as u32,
+        2 => 4_000_000_000 + r.below(1000) as u32,
+        _ => r.range(1, 100_000) as u32,
+    };
     z.sets.remove(&(apex(), T_SOA));
     z.insert(&apex(), T_SOA, rd_soa("ns1.z.", "h.z.", s, 3600, 600, 86400, 300), 300);
 }
